@@ -82,6 +82,17 @@ def c_rules(tu):
                 fn = tu.func(v[1])
                 params = [k.n for k in fn.kids if k.k == "ParmVarDecl"]
                 ok = False
+                # the guard is needed only where a loop draws elements from the
+                # operand and modifies self in the same pass
+                def _mutating_draw(lp):
+                    draws = any(x.k == "CallExpr" and callee(x) == ("fn", "PyIter_Next") for x in lp.walk())
+                    muts = any(x.k == "CallExpr" and callee(x)[0] == "fn" and
+                               callee(x)[1] in ("_bucket_set", "_BTree_set", "bucket_clear", "BTree_clear")
+                               for x in lp.walk())
+                    return draws and muts
+                if not any(_mutating_draw(lp) for lp in fn.walk()
+                           if lp.k in ("WhileStmt", "ForStmt", "DoStmt")):
+                    continue
                 for n in fn.walk():
                     if n.k == "IfStmt":
                         c = strip(n.kids[0])
@@ -322,6 +333,16 @@ def py_rules(res):
         ok = False
         loops = [n2 for n2 in ast.walk(f) if isinstance(n2, ast.For) and
                  pyfront.unparse(n2.iter) == other]
+        # the guard is needed only where a loop over the operand modifies self
+        # in the same pass (iterating self while changing it)
+        mutating = [l for l in loops if any(
+            isinstance(c, ast.Call) and isinstance(c.func, ast.Attribute) and
+            pyfront.unparse(c.func.value) == "self" and
+            c.func.attr in ("add", "discard", "remove", "update", "clear", "pop", "insert")
+            for c in ast.walk(l))]
+        if not mutating:
+            continue
+        loops = mutating
         for n2 in ast.walk(f):
             if isinstance(n2, ast.If) and pyfront.unparse(n2.test) in (
                     "%s is self" % other, "self is %s" % other):
